@@ -95,33 +95,40 @@ def expandRow (ts : TableSchema) (r : OvsRow) (m : AMap String String) : Except 
     | none => .error "column not found"
     | some cs => .ok (p.1, expandNamedUUID cs p.2 m))
 
+/-- pass 1 of `ExpandNamedUUIDs` for one operation: inserts declare names -/
+def expandPass1Step (acc : List Operation × AMap String String) (op : Operation) :
+    Except String (List Operation × AMap String String) :=
+  if op.op != "insert" then .ok (acc.1 ++ [op], acc.2)
+  else if !isValidUUID op.uuid then .error "operation UUID invalid"
+  else if op.uuidName != "" then
+    match get? acc.2 op.uuidName with
+    | some u =>
+      if op.uuid != "" && op.uuid != u then .error "named UUID maps to a different UUID"
+      else .ok (acc.1 ++ [{ op with uuid := u, uuidName := "" }], acc.2)
+    | none => .ok (acc.1 ++ [{ op with uuidName := "" }], insert acc.2 op.uuidName op.uuid)
+  else .ok (acc.1 ++ [op], acc.2)
+
+/-- pass 2 of `ExpandNamedUUIDs` for one operation: substitute names in every
+    uuid-typed position -/
+def expandPass2Op (σ : DbModel) (m : AMap String String) (op : Operation) : Except String Operation :=
+  match σ.table op.table with
+  | none => .error "table not found in schema"
+  | some ts => do
+    let w ← op.where_.mapM (fun c => match ts.column c.col with
+      | none => .error "column not found"
+      | some cs => .ok { c with val := expandNamedUUID cs c.val m })
+    let ms ← op.mutations.mapM (fun mu => match ts.column mu.col with
+      | none => .error "column not found"
+      | some cs => .ok { mu with val := expandNamedUUID cs mu.val m })
+    let rows ← op.rows.mapM (fun r => expandRow ts r m)
+    let row ← expandRow ts op.row m
+    pure { op with where_ := w, mutations := ms, rows := rows, row := row }
+
 /-- `ExpandNamedUUIDs(ops, schema)` -/
-def expandNamedUUIDs (σ : DbModel) (ops : List Operation) : Except String (List Operation) := do
-  -- pass 1
-  let (ops1, m) ← ops.foldlM (fun (acc : List Operation × AMap String String) op =>
-    if op.op != "insert" then pure (acc.1 ++ [op], acc.2)
-    else if !isValidUUID op.uuid then .error "operation UUID invalid"
-    else if op.uuidName != "" then
-      match get? acc.2 op.uuidName with
-      | some u =>
-        if op.uuid != "" && op.uuid != u then .error "named UUID maps to a different UUID"
-        else pure (acc.1 ++ [{ op with uuid := u, uuidName := "" }], acc.2)
-      | none => pure (acc.1 ++ [{ op with uuidName := "" }], insert acc.2 op.uuidName op.uuid)
-    else pure (acc.1 ++ [op], acc.2)) ([], [])
-  -- pass 2
-  ops1.mapM (fun op =>
-    match σ.table op.table with
-    | none => .error "table not found in schema"
-    | some ts => do
-      let w ← op.where_.mapM (fun c => match ts.column c.col with
-        | none => .error "column not found"
-        | some cs => .ok { c with val := expandNamedUUID cs c.val m })
-      let ms ← op.mutations.mapM (fun mu => match ts.column mu.col with
-        | none => .error "column not found"
-        | some cs => .ok { mu with val := expandNamedUUID cs mu.val m })
-      let rows ← op.rows.mapM (fun r => expandRow ts r m)
-      let row ← expandRow ts op.row m
-      pure { op with where_ := w, mutations := ms, rows := rows, row := row })
+def expandNamedUUIDs (σ : DbModel) (ops : List Operation) : Except String (List Operation) :=
+  match ops.foldlM expandPass1Step ([], []) with
+  | .error e => .error e
+  | .ok (ops1, m) => ops1.mapM (expandPass2Op σ m)
 
 /-! ### transaction state -/
 
@@ -200,47 +207,58 @@ def errStr (e : OpErr) : String :=
 
 /-- one update / mutate / delete operation on the rows the overlay selects -/
 def rowOp (σ : DbModel) (db : Database) (tx : Txn) (op : Operation) (rop : RowOperation) (isDelete : Bool) :
-    Except String (OpResult × Txn × List ((String × UUID) × ModelUpdate)) := do
+    Except String (OpResult × Txn × List ((String × UUID) × ModelUpdate)) :=
   match σ.table op.table with
   | none => .error "table does not exist"
   | some ts =>
-    let (rows, tx1) ← overlayRows σ db tx op.table op.where_
-    let step ← rows.foldlM (fun (acc : List ((String × UUID) × ModelUpdate)) p =>
-      match addOperation ts {} p.1 (some ⟨p.1, p.2⟩) rop with
-      | .ok mu => if mu.isEmpty then pure acc else pure (acc ++ [((op.table, p.1), mu)])
-      | .error e => .error (errStr e)) []
-    let tx2 := if isDelete then { tx1 with deleted := tx1.deleted ++ rows.map (·.1) } else tx1
-    pure ({ count := rows.length }, tx2, step)
+    match overlayRows σ db tx op.table op.where_ with
+    | .error e => .error e
+    | .ok (rows, tx1) =>
+      match rows.foldlM (fun (acc : List ((String × UUID) × ModelUpdate)) p =>
+          match addOperation ts {} p.1 (some ⟨p.1, p.2⟩) rop with
+          | .ok mu => if mu.isEmpty then pure acc else pure (acc ++ [((op.table, p.1), mu)])
+          | .error e => (.error (errStr e) : Except String _)) [] with
+      | .error e => .error e
+      | .ok step =>
+        let tx2 := if isDelete then { tx1 with deleted := tx1.deleted ++ rows.map (·.1) } else tx1
+        .ok ({ count := rows.length }, tx2, step)
+
+/-- does the row satisfy the `columns`/`rows` comparison of a wait operation? -/
+def waitMatches (ts : TableSchema) (cols : List String) (expected : List Model) (p : UUID × Row) : Bool :=
+  cols.all (fun col =>
+    match ts.column col with
+    | none => true
+    | some cs => expected.all (fun e =>
+      match e.field col, (Model.mk p.1 p.2).field col with
+      | some x, some y => isDefaultValue cs x || x == y
+      | _, _ => true))
+
+def waitSatisfied (untilFn : String) (matching expected : Nat) : Bool :=
+  if untilFn == "==" then matching == expected else matching != expected
 
 /-- `Transaction.Wait` with a zero timeout -/
-def waitOp (σ : DbModel) (db : Database) (tx : Txn) (op : Operation) : Except String (OpResult × Txn) := do
+def waitOp (σ : DbModel) (db : Database) (tx : Txn) (op : Operation) : Except String (OpResult × Txn) :=
   if op.untilFn != "!=" && op.untilFn != "==" then .error "not supported"
   else match σ.table op.table with
   | none => .error "not supported"
   | some ts =>
-    let (rows, tx1) ← overlayRows σ db tx op.table op.where_
-    -- the expected rows, decoded once
-    let expected ← op.rows.mapM (fun r => getRowData ts r (newModel ts))
-    let matching := rows.filter (fun p =>
-      op.columns.all (fun col =>
-        match ts.column col with
-        | none => true
-        | some cs => expected.all (fun e =>
-          match e.field col, (Model.mk p.1 p.2).field col with
-          | some x, some y => isDefaultValue cs x || x == y
-          | _, _ => true)))
-    let ok := if op.untilFn == "==" then matching.length == op.rows.length else matching.length != op.rows.length
-    if ok then pure ({}, tx1)
-    else match op.timeout with
-      | some _ => .error "timed out"
-      | none => .error "blocks forever"
+    match overlayRows σ db tx op.table op.where_ with
+    | .error e => .error e
+    | .ok (rows, tx1) =>
+      match op.rows.mapM (fun r => getRowData ts r (newModel ts)) with
+      | .error e => .error e
+      | .ok expected =>
+        if waitSatisfied op.untilFn (rows.filter (waitMatches ts op.columns expected)).length op.rows.length then
+          .ok ({}, tx1)
+        else match op.timeout with
+          | some _ => .error "timed out"
+          | none => .error "blocks forever"
 
 /-- one operation of the per-operation loop: result, new transaction state and
     the step's updates -/
 def execOp (σ : DbModel) (db : Database) (tx : Txn) (op : Operation) :
     Except String (OpResult × Txn × List ((String × UUID) × ModelUpdate)) :=
-  match op.op with
-  | "insert" =>
+  if op.op = "insert" then
     if !isValidUUID op.uuid then .error "invalid uuid"
     else match σ.table op.table with
       | none => .error "table not found"
@@ -248,21 +266,24 @@ def execOp (σ : DbModel) (db : Database) (tx : Txn) (op : Operation) :
         match addOperation ts {} op.uuid none (.insert op.row) with
         | .ok mu => .ok ({ uuid := op.uuid }, tx, [((op.table, op.uuid), mu)])
         | .error e => .error (errStr e)
-  | "select" => do
+  else if op.op = "select" then
     match σ.table op.table with
     | none => .error "table does not exist"
     | some ts =>
-      let (rows, tx1) ← overlayRows σ db tx op.table op.where_
-      let out ← rows.mapM (fun p => newRow ts ⟨p.1, p.2⟩)
-      pure ({ rows := out }, tx1, [])
-  | "update" => rowOp σ db tx op (.update op.row) false
-  | "mutate" => rowOp σ db tx op (.mutate op.mutations) false
-  | "delete" => rowOp σ db tx op .delete true
-  | "wait" => do
-    let (r, tx1) ← waitOp σ db tx op
-    pure (r, tx1, [])
-  | "commit" | "abort" | "comment" | "assert" => .error "not supported"
-  | _ => .error "not supported"
+      match overlayRows σ db tx op.table op.where_ with
+      | .error e => .error e
+      | .ok (rows, tx1) =>
+        match rows.mapM (fun p => newRow ts ⟨p.1, p.2⟩) with
+        | .error e => .error e
+        | .ok out => .ok ({ rows := out }, tx1, [])
+  else if op.op = "update" then rowOp σ db tx op (.update op.row) false
+  else if op.op = "mutate" then rowOp σ db tx op (.mutate op.mutations) false
+  else if op.op = "delete" then rowOp σ db tx op .delete true
+  else if op.op = "wait" then
+    match waitOp σ db tx op with
+    | .error e => .error e
+    | .ok (r, tx1) => .ok (r, tx1, [])
+  else .error "not supported"
 
 /-- apply a step's updates to the transaction cache -/
 def applyStep (tx : Txn) (step : List ((String × UUID) × ModelUpdate)) : Except String Txn :=
@@ -411,20 +432,28 @@ def pruneWeak (σ : DbModel) (rs : Rows) : Except OpErr Rows :=
         | _, _ => pure r) p.2.2
       pure (if r' == p.2.2 then acc else acc.set p.1 p.2.1 r')) rs
 
+/-- a live row weakly references a row that does not exist -/
+def danglingWeak (σ : DbModel) (rs : Rows) : Bool :=
+  rs.all.any (fun p =>
+    match σ.table p.1 with
+    | none => false
+    | some ts => (rowRefs ts p.2.2).any (fun e => !e.2.2.2.1 && !rs.has e.2.1 e.2.2.1))
+
 /-- the reference-processing loop; `fuel` bounds the number of rounds (each
-    productive round deletes a row or prunes a reference) -/
+    productive round deletes a row or prunes a reference).  A round: reject a
+    dangling strong reference; delete the unreferenced rows of non-root tables;
+    prune weak references to missing rows (rejecting a column that falls below
+    its minimum); stop when nothing was deleted and no weak reference dangles. -/
 def refLoop (σ : DbModel) : Nat → Rows → Except OpErr Rows
-  | 0, rs => .ok rs
+  | 0, _ => .error .other      -- out of fuel: never a silent answer (see fuel in `commitPhase`)
   | n + 1, rs =>
     if danglingStrong σ rs then .error .referential
+    else if (unreferenced σ rs).isEmpty && !danglingWeak σ rs then .ok rs
     else
-      let dead := unreferenced σ rs
-      let rs1 := dead.foldl (fun acc d => acc.del d.1 d.2) rs
+      let rs1 := (unreferenced σ rs).foldl (fun acc d => acc.del d.1 d.2) rs
       match pruneWeak σ rs1 with
       | .error e => .error e
-      | .ok rs2 =>
-        if dead.isEmpty && rs2.all.length == rs1.all.length && rs2 == rs1 then .ok rs2
-        else refLoop σ n rs2
+      | .ok rs2 => refLoop σ n rs2
 
 def rowCount (rs : Rows) : Nat := rs.all.length
 
@@ -495,6 +524,43 @@ structure TxnResult where
 
 def totalRows (db : Database) : Nat := db.toRows.all.length
 
+/-- `applyReferenceUpdates`, first half: track deletions and warm the
+    transaction cache with the rows the reference updates touch -/
+def warmForRefs (db : Database) (tx : Txn) (rupd : List ((String × UUID) × ModelUpdate)) : Txn :=
+  rupd.foldl (fun (t : Txn) p =>
+    let t := if p.2.new.isNone then { t with deleted := t.deleted ++ [p.1.2] } else t
+    match get? t.cache p.1.1, p.2.old with
+    | some c, some o =>
+      if (get? c.rows p.1.2).isNone then
+        match (get? db p.1.1).bind (fun dc => get? dc.rows p.1.2) with
+        | some dbRow => match c.create p.1.2 dbRow false with
+          | .ok c' => { t with cache := insert t.cache p.1.1 c' }
+          | .error _ => t
+        | none => match c.create p.1.2 o.row false with
+          | .ok c' => { t with cache := insert t.cache p.1.1 c' }
+          | .error _ => t
+      else t
+    | _, _ => t) tx
+
+/-- what happens after every operation succeeded and there are updates:
+    reference processing, index check -/
+def commitPhase (σ : DbModel) (db : Database) (results : List OpResult) (tx : Txn) : TxnResult :=
+  let s1 := rowsAfter db tx.updates
+  match refLoop σ (rowCount s1 + refCount σ s1 + 2) s1 with
+  | .error e => ⟨results ++ [{ error := some (errStr e) }], [], false⟩
+  | .ok sFinal =>
+    match refUpdates σ s1 sFinal with
+    | .error e => ⟨results ++ [{ error := some (errStr e) }], [], false⟩
+    | .ok rupd =>
+      match Updates.merge σ tx.updates rupd with
+      | .error e => ⟨results ++ [{ error := some (errStr e) }], [], false⟩
+      | .ok upd =>
+        match applyStep (warmForRefs db tx rupd) rupd with
+        | .error e => ⟨results ++ [{ error := some e }], [], false⟩
+        | .ok tx2 =>
+          if checkIndexes σ db tx2 then ⟨results ++ [{ error := some "constraint violation" }], [], false⟩
+          else ⟨results, upd, true⟩
+
 /-- `Transaction.Transact(ops...)` on a fresh transaction.  `results` has one
     entry per executed operation (the Go slice additionally holds nil for the
     operations after a failing one). -/
@@ -502,42 +568,10 @@ def transact (σ : DbModel) (db : Database) (ops : List Operation) : TxnResult :
   match expandNamedUUIDs σ ops with
   | .error e => ⟨[{ error := some e }], [], false⟩
   | .ok ops' =>
-    let tx0 : Txn := { cache := Database.empty σ }
-    let (results, tx, ok) := runOps σ db tx0 ops'
-    if !ok then ⟨results, [], false⟩
-    else if tx.updates.isEmpty then ⟨results, [], true⟩
-    else
-      let s1 := rowsAfter db tx.updates
-      let fuel := rowCount s1 + refCount σ s1 + 2
-      match refLoop σ fuel s1 with
-      | .error e => ⟨results ++ [{ error := some (errStr e) }], [], false⟩
-      | .ok sFinal =>
-        match refUpdates σ s1 sFinal with
-        | .error e => ⟨results ++ [{ error := some (errStr e) }], [], false⟩
-        | .ok rupd =>
-          match Updates.merge σ tx.updates rupd with
-          | .error e => ⟨results ++ [{ error := some (errStr e) }], [], false⟩
-          | .ok upd =>
-            -- applyReferenceUpdates: warm the transaction cache, track deletions, apply
-            let txw := rupd.foldl (fun (t : Txn) p =>
-              let t := if p.2.new.isNone then { t with deleted := t.deleted ++ [p.1.2] } else t
-              match get? t.cache p.1.1, p.2.old with
-              | some c, some o =>
-                if (get? c.rows p.1.2).isNone then
-                  match (get? db p.1.1).bind (fun dc => get? dc.rows p.1.2) with
-                  | some dbRow => match c.create p.1.2 dbRow false with
-                    | .ok c' => { t with cache := insert t.cache p.1.1 c' }
-                    | .error _ => t
-                  | none => match c.create p.1.2 o.row false with
-                    | .ok c' => { t with cache := insert t.cache p.1.1 c' }
-                    | .error _ => t
-                else t
-              | _, _ => t) tx
-            match applyStep txw rupd with
-            | .error e => ⟨results ++ [{ error := some e }], [], false⟩
-            | .ok tx2 =>
-              if checkIndexes σ db tx2 then ⟨results ++ [{ error := some "constraint violation" }], [], false⟩
-              else ⟨results, upd, true⟩
+    match runOps σ db { cache := Database.empty σ } ops' with
+    | (results, _, false) => ⟨results, [], false⟩
+    | (results, tx, true) =>
+      if tx.updates.isEmpty then ⟨results, [], true⟩ else commitPhase σ db results tx
 
 /-- `inMemoryDatabase.Commit`: apply the update to the database cache, row by
     row in the given order (the Go code iterates maps) -/
